@@ -1,6 +1,7 @@
 mod common;
 mod c04;
 mod c10;
+mod c11;
 mod tsx_client;
 mod tsx_server;
 
@@ -14,6 +15,7 @@ fn main() {
     let cases = common::read_cases(&args[2]);
     match args[1].as_str() {
         "c10" => c10::run(&cases),
+        "c11" => c11::run(&cases),
         "c04" => c04::run(&cases),
         "c05" => tsx_client::run(&cases, false),
         "c07" => tsx_client::run(&cases, true),
